@@ -202,6 +202,7 @@ def handle (op : String) (j : Json) : Option Json :=
                  ("keep", keepOk r init fin stmts),
                  ("requested", requestedOk d r fin),
                  ("schema", schemaOk r o),
+                 ("address", addressOk r.column stmts),
                  ("plain", plainDefaults r),
                  ("final", stateToJson fin)])
     | _, _, _, _ => some (errJ "bad-op")
